@@ -201,6 +201,7 @@ func (s *listSubj[T]) ModelApply(op Op) {
 		slices.SortStableFunc(s.m, func(a, b T) int { return s.d.Cmp(b, a) })
 	case "Clear":
 		s.m = nil
+	case "Churn": // (pairs that cancel out)
 	case "AddOwn":
 		s.m = append(slices.Clone(s.m), s.m...)
 	case "PrependOwn":
@@ -276,6 +277,24 @@ func (s *listSubj[T]) Step(op Op, o *Oracle) {
 		}
 	case "Clear":
 		s.l.Clear()
+	case "Churn": // op.A[0] pairs of an insertion and the removal that undoes it, at the end and at the front in turn
+		for i := 0; i < op.A[0]; i++ {
+			x := s.d.At((op.A[1] + i) % len(s.d.Tab))
+			if i%2 == 0 {
+				s.l.Add(x)
+				s.l.Remove(len(s.m))
+			} else {
+				s.l.Insert(0, x)
+				s.l.Remove(0)
+			}
+			if got := s.l.Size(); got != len(s.m) && o.On("C03") {
+				o.Fail("C03", "size", "pair %d of a long run of insertions each undone by a removal: Size()=%d, want %d", i, got, len(s.m))
+				break
+			}
+			if i%512 == 0 {
+				opSteps = 0
+			}
+		}
 	case "AddOwn", "PrependOwn", "InsertOwn":
 		// the slice Values() returned is handed straight back (the caller's data, like any other argument)
 		vs := ownArgs(s.l.Values())
